@@ -71,37 +71,111 @@ func Discharge(results []*FuncResult, workDir string, secs int, par int, seed in
 }
 
 func solveOne(vc *VC, o *Obligation, workDir string, idx int, secs int, seed int) {
-	solveVariant(vc, o, workDir, idx, secs, seed, nil, "")
-	if o.Status == "discharged" || o.Status == "failed" || o.MustFail {
+	if o.MustFail {
+		// vacuity canaries only need "not provable"; a short limit is enough
+		t := secs
+		if t > 3 {
+			t = 3
+		}
+		solveVariant(context.Background(), vc, o, workDir, idx, t, seed, nil, "")
 		return
 	}
-	// undecided: split the path condition at the merge points it implies
-	cases := vc.splitCases(o, 48)
-	if len(cases) < 2 {
-		return
+	ctx, cancel := context.WithCancel(context.Background())
+	defer cancel()
+	whole := &Obligation{Name: o.Name, Reach: o.Reach, Goal: o.Goal, NDecls: o.NDecls, Inputs: o.Inputs}
+	doneWhole := make(chan struct{})
+	go func() {
+		solveVariant(ctx, vc, whole, workDir, idx, secs, seed, nil, "")
+		close(doneWhole)
+	}()
+	adopt := func(src *Obligation) {
+		o.Status, o.Solver, o.Seconds, o.Output, o.Model, o.Size = src.Status, src.Solver, src.Seconds, src.Output, src.Model, src.Size
 	}
-	total := 0.0
-	firstOut := o.Output
-	for k, c := range cases {
-		sub := &Obligation{Name: o.Name, Reach: o.Reach, Goal: o.Goal, NDecls: o.NDecls, Inputs: o.Inputs}
-		solveVariant(vc, sub, workDir, idx, secs, seed, c, fmt.Sprintf(".case%d", k))
-		total += sub.Seconds
-		if sub.Status != "discharged" {
-			o.Status = sub.Status
-			o.Model = sub.Model
-			o.Solver = sub.Solver
-			o.Output = fmt.Sprintf("case %d/%d (%s): %s || unsplit: %s", k+1, len(cases), strings.Join(c, " "), sub.Output, firstOut)
-			o.Seconds += total
+	t0 := time.Now()
+	select {
+	case <-doneWhole:
+		adopt(whole)
+		if o.Status == "discharged" || o.Status == "failed" {
 			return
 		}
-		o.Solver = "split/" + sub.Solver
+	case <-time.After(1500 * time.Millisecond):
 	}
-	o.Status = "discharged"
-	o.Seconds += total
-	o.Output = fmt.Sprintf("discharged by case split into %d path cases", len(cases))
+	// undecided so far: split the path condition at the merge points it implies, in parallel
+	cases := vc.splitCases(o, 48)
+	if len(cases) < 2 {
+		<-doneWhole
+		adopt(whole)
+		return
+	}
+	subs := make([]*Obligation, len(cases))
+	doneSplit := make(chan struct{})
+	go func() {
+		var wg sync.WaitGroup
+		sem := make(chan struct{}, 6)
+		for k, c := range cases {
+			k, c := k, c
+			subs[k] = &Obligation{Name: o.Name, Reach: o.Reach, Goal: o.Goal, NDecls: o.NDecls, Inputs: o.Inputs}
+			wg.Add(1)
+			sem <- struct{}{}
+			go func() {
+				defer wg.Done()
+				defer func() { <-sem }()
+				solveVariant(ctx, vc, subs[k], workDir, idx, secs, seed, c, fmt.Sprintf(".case%d", k))
+			}()
+		}
+		wg.Wait()
+		close(doneSplit)
+	}()
+	wholeDone, splitDone := false, false
+	for !(wholeDone && splitDone) {
+		select {
+		case <-doneWhole:
+			wholeDone = true
+			doneWhole = nil
+			if whole.Status == "discharged" || whole.Status == "failed" {
+				adopt(whole)
+				o.Seconds = time.Since(t0).Seconds()
+				return
+			}
+		case <-doneSplit:
+			splitDone = true
+			doneSplit = nil
+			all := true
+			for k, sub := range subs {
+				if sub.Status != "discharged" {
+					all = false
+					if sub.Status == "failed" {
+						adopt(sub)
+						o.Output = fmt.Sprintf("case %d/%d (%s): %s", k+1, len(cases), strings.Join(cases[k], " "), sub.Output)
+						o.Seconds = time.Since(t0).Seconds()
+						return
+					}
+				}
+			}
+			if all {
+				o.Status = "discharged"
+				o.Solver = "split/" + subs[0].Solver
+				o.Seconds = time.Since(t0).Seconds()
+				o.Output = fmt.Sprintf("discharged by case split into %d path cases", len(cases))
+				o.Size = subs[0].Size
+				return
+			}
+		}
+	}
+	adopt(whole)
+	for k, sub := range subs {
+		if sub.Status != "discharged" {
+			o.Output = fmt.Sprintf("case %d/%d (%s): %s || unsplit: %s", k+1, len(cases), strings.Join(cases[k], " "), sub.Output, whole.Output)
+			if o.Status == "discharged" {
+				o.Status = sub.Status
+			}
+			break
+		}
+	}
+	o.Seconds = time.Since(t0).Seconds()
 }
 
-func solveVariant(vc *VC, o *Obligation, workDir string, idx int, secs int, seed int, extra []string, suffix string) {
+func solveVariant(parent context.Context, vc *VC, o *Obligation, workDir string, idx int, secs int, seed int, extra []string, suffix string) {
 	base := filepath.Join(workDir, fmt.Sprintf("%04d_%s", idx, safeNameRe.ReplaceAllString(o.Name, "_")))
 	if len(base) > 200 {
 		base = base[:200]
@@ -118,7 +192,7 @@ func solveVariant(vc *VC, o *Obligation, workDir string, idx int, secs int, seed
 		scripts[style] = f
 		o.Size = len(s)
 	}
-	ctx, cancel := context.WithCancel(context.Background())
+	ctx, cancel := context.WithCancel(parent)
 	defer cancel()
 	type ans struct {
 		solver string
